@@ -92,8 +92,7 @@ def case_kernel(case):
     if status == "died":
         # numba's workqueue layer (used by the harness because it is fork-safe) aborts on nested parallel regions, which
         # the default layer supports: repeat in a fresh process with numba's default threading layer before judging
-        env = dict(os.environ)
-        env.pop("NUMBA_THREADING_LAYER", None)
+        env = dict(os.environ, NUMBA_THREADING_LAYER="default")
         code = ("import sys, json; sys.path.insert(0, %r); from vf.checks import c10_kernels as k; "
                 "m, n, _ = k.kernel_ref(%r); a = k.kernel_inputs(%r, %r); getattr(m, n)(*a); print('OUT ' + json.dumps(a[0].tolist()))"
                 % (str(core.ROOT), kernel, kernel, tuple(shape)))
@@ -150,7 +149,7 @@ def run_threads(run: core.Run):
     for n in counts + [counts[-1]]:  # the last count is run twice (fresh-process repeatability)
         env = dict(os.environ, NUMBA_NUM_THREADS=str(n), OMP_WAIT_POLICY="PASSIVE", VERIF_TIER_EFFECTIVE=run.tier)
         env.pop("OPENBLAS_NUM_THREADS", None) if n == counts[-1] else None
-        env.pop("NUMBA_THREADING_LAYER", None)  # the sweep runs numba's default threading layer
+        env["NUMBA_THREADING_LAYER"] = "default"  # the sweep runs numba's default threading layer
         procs.append((n, subprocess.Popen(
             [sys.executable, "-c", "import sys; sys.path.insert(0, %r); from vf.checks import c10_kernels as k; k.worker_main()" % str(core.ROOT)],
             env=env, stdout=subprocess.PIPE, stderr=subprocess.PIPE, text=True)))  # fmt: skip
